@@ -15,7 +15,7 @@ def build(ctx):
 def run(ctx):
     exes = build(ctx)
     th = ctx.tier == "thorough"
-    ctx.fan(exes["h_table"], "c01", 40000 if th else 1500, ["--aux", exes["mtbl_dump"]], timeout=120)
+    ctx.fan(exes["h_table"], "c01", 40000 if th else 3000, ["--aux", exes["mtbl_dump"]], timeout=120)
     s = ctx.stats
     ctx.assumptions += ["oracle = the generated strictly increasing sequence itself (sorted with the harness's own comparator)",
                         "block_restart_interval 0 and keys/values >= 4 GiB are outside the quantifier and not generated"]
@@ -24,6 +24,6 @@ def run(ctx):
              "0..~3000 entries (thorough ~22000), writer configuration drawn from 6 compression types x level classes x block sizes x restart intervals x pool sizes x foreign prefix lengths; "
              "non-trivial = every generated case; distinct = distinct (content, configuration) hashes",
         evaluations=s.get("c01.files", 0),
-        floors={"c01.files": 1000, "c01.entries_compared": 50000, "gen.key_ge_128": 50, "gen.value_ge_16k": 5, "gen.empty_key": 20,
+        floors={"c01.files": 2500, "c01.entries_compared": 50000, "gen.key_ge_128": 50, "gen.value_ge_16k": 5, "gen.empty_key": 20,
                 "gen.shared_prefix_ge_128": 50, "c01.files_pooled": 100, "dump.entries_compared": 1000, "dump.invocations.plain": 50},
         extra={"dump_invocations": sum(v for k, v in s.items() if k.startswith("dump.invocations."))})
